@@ -171,6 +171,13 @@ def generate(rng, tier):
         sizes = lambda: rng.choice([1000, 3000, 4400, 8900])
         cases.append(Case(msg_line(rng, rng.choice([1, 2]), rng.choice([0, 2, 4]), 0, rng.choice([2, 4, 8]),
                                    big_txt=sizes, response=False), "tc-query"))
+    for _ in range(n // 8):
+        # instance-name escaping on registration
+        l = rng.choice(LABELS + [b"a.b.c", b"..", b"\\\\", b"x\\.", b"\\.x", "é.ü".encode()])
+        if rng.random() < 0.5:
+            l = bytes(rng.choice([0x2e, 0x5c, 0x61, 0x20, 0xc3, 0xa9][:4]) for _ in range(rng.choice([1, 2, 3, 6, 20])))
+        ty = rng.choice([b"_http._tcp.local.", b"_x._udp.local.", b"_printer._sub._ipp._tcp.local."])
+        cases.append(Case("txt_esc %s %s" % (hx(l), hx(ty)), "escape"))
     for _ in range(n // 16):
         # many questions (fits / does not fit)
         cases.append(Case(msg_line(rng, rng.choice([30, 200, 600]), 0, 0, 0), "many-questions"))
